@@ -550,3 +550,112 @@ class PathRegistryGet(FnCheck):
                       info={'exc': repr(outcome[1])})
             return
         ex.oblige(st, 'returns_the_object_registered_for_that_element', z3.And(known, st.box(outcome[1]) == z3.Select(self.dv0, self.elem.e)))
+
+
+@register
+class RequestReadsAreLengthBounded(ScanCheck):
+    id = 'C13.request_reads_are_length_bounded'
+    prop = 'C13'
+    doc = ('frame over the request path of the http server: the request handler module never reads from the connection '
+           'itself (no read / readline / recv on rfile, connection or request - all reading is delegated to HTTPReader), '
+           'and inside HTTPReader.read_request_body, _read_dechunk and _read_until every stream read names its size '
+           '(Content-Length, chunk size, 1 or 2 bytes; termination of the chunk loops: C13.read_until / '
+           'C13.dechunk_terminates). The one size-less read() of read_request_body sits in the TypeError handler of '
+           'int(<header string>), which a header string cannot reach. A read to end-of-stream would block for as long as '
+           'the peer keeps the connection open - no status, no fault')
+
+    READS = {'read', 'readline', 'readlines', 'readinto', 'read1', 'recv', 'recv_into', 'recvfrom', 'makefile'}
+
+    def scan(self, repo):
+        out = []
+        handler = repo.module('sdc11073.httpserver.httprequesthandler')
+        own = []
+        for n in ast.walk(handler.tree):
+            if isinstance(n, ast.Call) and isinstance(n.func, ast.Attribute) and n.func.attr in self.READS:
+                recv = ast.unparse(n.func.value)
+                if any(k in recv for k in ('rfile', 'connection', 'request', 'socket', 'stream')):
+                    own.append((n.lineno, ast.unparse(n.func)))
+        out.append(('handler_module_never_reads_the_connection_itself', not own, {'sites': str(own)}))
+        reader = repo.module('sdc11073.httpserver.httpreader')
+        cdef = reader.classes['HTTPReader']
+        sizeless, sized = [], 0
+        for fn in [f for f in cdef.body if isinstance(f, ast.FunctionDef) and f.name in ('read_request_body', '_read_dechunk', '_read_until')]:
+            excused = set()
+            for t in ast.walk(fn):
+                if isinstance(t, ast.Try) and any(isinstance(c, ast.Call) and ast.unparse(c.func) == 'int' for s in t.body for c in ast.walk(s)):
+                    for h in t.handlers:
+                        if h.type is not None and ast.unparse(h.type) == 'TypeError':
+                            excused |= {id(c) for s in h.body for c in ast.walk(s)}
+            for n in ast.walk(fn):
+                if isinstance(n, ast.Call) and isinstance(n.func, ast.Attribute) and n.func.attr in self.READS:
+                    if n.args or n.keywords:
+                        sized += 1
+                    elif id(n) not in excused:
+                        sizeless.append((fn.name, n.lineno, ast.unparse(n)))
+        out.append(('every_request_read_names_its_size', not sizeless, {'sites': str(sizeless)}))
+        out.append(('reads_found', sized >= 4, {'sized_reads': sized}))
+        # _read_request only delegates
+        cd = handler.classes['DispatchingRequestHandler']
+        rr = [f for f in cd.body if isinstance(f, ast.FunctionDef) and f.name == '_read_request']
+        body = [s for s in rr[0].body if not (isinstance(s, ast.Expr) and isinstance(s.value, ast.Constant))] if rr else []
+        calls = [ast.unparse(c.func) for s in body for c in ast.walk(s) if isinstance(c, ast.Call)]
+        out.append(('read_request_only_delegates_to_the_reader', bool(rr) and calls == ['HTTPReader.read_request_body'], {'calls': str(calls)}))
+        return out
+
+
+@register
+class RequestBodyReadSize(FnCheck):
+    id = 'C13.request_body_read_size'
+    prop = 'C13'
+    opaque_ok = True
+    target = f'{RD}:HTTPReader.read_request_body'
+    replay_fn = 'C13:open_connection_framing'
+    replay_without_model = True
+    doc = ('HTTPReader.read_request_body: whatever the Content-Length / Transfer-Encoding / Content-Encoding header '
+           'strings are, every read from the request stream asks for an explicit, NON-NEGATIVE number of bytes '
+           '(rfile.read(n) with n < 0, like read(), reads until the peer closes the connection) or goes through the '
+           'chunk reader (C13.dechunk_terminates); a header that does not denote such a number raises (answered 400 by '
+           'do_POST, C13.do_POST_total)')
+
+    def concretize(self, vc, model):
+        return {'framing': None}
+
+    def setup(self, b):
+        st = b.st
+        self.hdr = {k: b.any(f'header.{k}', maybe_none=True) for k in ('transfer-encoding', 'content-length', 'content-encoding')}
+        for v in self.hdr.values():
+            st.assume(z3.Or(Val.is_none(v.e), Val.is_str(v.e)))     # header values are strings
+        msg = b.obj('http_message', headers=b.obj('headers'), rfile=b.obj('rfile'))
+        st.ghost['reads'] = ()
+        return V('class', py=(RD, 'HTTPReader')), [msg], {}
+
+    def callees(self, ex):
+        def get(ex_, st, args, kwargs):
+            k = z3.simplify(args[0].e) if args[0].kind == 'str' else None
+            if k is not None and z3.is_string_value(k) and k.as_string().lower() in self.hdr:
+                return self.hdr[k.as_string().lower()]
+            return vany(fresh(Val, 'hdr'), maybe_none=True)
+
+        def read(ex_, st, args, kwargs):
+            st.ghost['reads'] = st.ghost['reads'] + ((tuple(args), st),)
+            return vbytes(fresh(StrS, 'body'))
+        return {'*.get': Pure(get, name='headers.get(name) -> header string or None'),
+                '*.read': Pure(read, name='rfile.read([n]) (ghost: requested sizes)'),
+                f'{RD}:HTTPReader._read_dechunk': Pure(lambda e, s, a, k: vbytes(fresh(StrS, 'dechunked')), name='_read_dechunk (C13.dechunk_terminates)', raises=('*',)),
+                'cls._read_dechunk': Pure(lambda e, s, a, k: vbytes(fresh(StrS, 'dechunked')), name='_read_dechunk (C13.dechunk_terminates)', raises=('*',)),
+                'sdc11073.httpserver.compression:CompressionHandler.decompress_payload':
+                    Pure(lambda e, s, a, k: vbytes(fresh(StrS, 'decompressed')), name='decompress_payload', raises=('*',))}
+
+    def finish(self, ex, st0, outcomes, b):
+        ex.oblige(st0, 'some_path_reads_the_stream', z3.BoolVal(bool(getattr(self, '_saw_read', False))))
+
+    def post(self, ex, st0, st, outcome, b):
+        reads = st.ghost['reads']
+        if reads:
+            self._saw_read = True
+        ex.oblige(st, 'at_most_one_read_per_request', z3.BoolVal(len(reads) <= 1))
+        for args, rst in reads:
+            ex.oblige(rst, 'every_read_names_its_size', z3.BoolVal(len(args) == 1))
+            if len(args) == 1:
+                n = ex.concrete_kind(rst, args[0], ('int',))
+                ex.oblige(rst, 'requested_size_is_never_negative', (n.e >= 0) if n.kind == 'int' else z3.BoolVal(False))
